@@ -87,6 +87,12 @@ class Interp:
         self.depth = 0
         self.fresh = 0
 
+    spawn_same = False          # a subclass whose overrides must also apply inside inlined callees / lambda bodies sets this
+
+    def _spawn(self, g):
+        cls = type(self) if self.spawn_same else Interp
+        return cls(self.F, g, n=self.n, members=self.members, opaque=self.opaque)
+
     # ---- expressions
     def ev(self, n):
         n = skip(n)
@@ -306,7 +312,7 @@ class Interp:
         targets = self.F.resolve(n)
         if targets and self.depth < 6:
             g = targets[0]
-            sub = Interp(self.F, g, n=self.n, members=self.members, opaque=self.opaque)
+            sub = self._spawn(g)
             sub.depth = self.depth + 1
             sub.allow_shift = getattr(self, "allow_shift", False)
             for p, v in zip(g.params, vals):
@@ -319,7 +325,7 @@ class Interp:
         if not bodies or self.depth > 6:
             raise OutOfFragment("lambda body not available")
         g = bodies[0]
-        sub = Interp(self.F, g, n=self.n, members=self.members, opaque=self.opaque)
+        sub = self._spawn(g)
         sub.depth = self.depth + 1
         sub.allow_shift = getattr(self, "allow_shift", False)
         sub.env = dict(self.env)         # captures: the lambda body refers to the enclosing declarations
